@@ -185,6 +185,8 @@ def make_extended_trapezoid_area(
 
     # Perform a binary search for duration > max_duration if no solution was found
     if not solution:
+        linear_search_end = max_duration
+
         # First, find the upper limit on duration where a solution exists by
         # exponentially expanding the duration.
         while not solution:
@@ -203,6 +205,16 @@ def make_extended_trapezoid_area(
                 return binary_search(fun, test_value, upper_limit)
 
         solution = binary_search(_find_solution, max_duration // 2, max_duration)
+
+        # The binary search assumes that a solution exists for every duration above the optimum. Dead spaces
+        # violate that, so make sure that no shorter duration with a solution was skipped.
+        # (No waveform within max_grad can enclose the area in fewer raster steps than area / (max_grad * raster).)
+        shortest_conceivable = int(abs(area) / ((max_grad + 1e-8) * raster_time))
+        for duration in range(max(linear_search_end + 1, shortest_conceivable), solution[0] + solution[1] + solution[2]):
+            shorter_solution = _find_solution(duration)
+            if shorter_solution:
+                solution = shorter_solution
+                break
 
     # Get timing and gradient amplitude from solution
     time_ramp_up = solution[0] * raster_time
